@@ -115,6 +115,7 @@ class World:
         self.ci = ci
         self.excl = set(excl)      # active known-finding exclusions (by construction)
         self.excluded = 0
+        self.poisoned = set()      # resources currently holding the other root kind
         self.dir = directory
         self.check_outcome = check_outcome
         self.check_resource = check_resource
@@ -241,7 +242,19 @@ class World:
             return False
         doc = dec(s["doc"])
         if kind_of(doc) != self.root_ci[r].kind:
-            return False
+            if not s.get("poison") or kind_of(doc) not in ("dict", "list"):
+                return False
+            # The outside writer stores valid JSON of the OTHER root kind: every operation must now
+            # raise (documented ValueError) until the resource is repaired; nested handles are
+            # detached by the wording of C02 (their positions no longer exist).
+            self.res[r].write(copy.deepcopy(doc))
+            self.poisoned.add(r)
+            for h in self.handles:
+                if h.res == r and h.path:
+                    h.attached = False
+            self.events["poison"] += 1
+            return None
+        self.poisoned.discard(r)
         self.res[r].write(copy.deepcopy(doc))
         self.docs[r] = copy.deepcopy(doc)
         self.may_be_absent[r] = False
@@ -252,6 +265,8 @@ class World:
         i, k = s["h"], dec(s["k"])
         via = s.get("via", "getitem")
         if not self.usable(i):
+            return False
+        if self.handles[i].res in self.poisoned:
             return False
         h = self.handles[i]
         cont = self.model_at(h)
@@ -300,6 +315,18 @@ class World:
         h = self.handles[i]
         if m not in ops.MUTATORS[h.kind] and m not in ops.READS[h.kind] and m not in ops.EXTRA_READ:
             return False
+        if h.res in self.poisoned:
+            # unmergeable content: the operation must fail, and must not damage anything
+            real = ops.real_apply(h.real, h.kind, m, a, kw, self._resolve_real)
+            self.events["op_while_poisoned"] += 1
+            if real.ok and m not in ("clear", "reset"):
+                raise Mismatch("operation_succeeded_on_unmergeable_resource", step=s, real=real.brief())
+            if real.ok:
+                # root clear()/reset() are destructive by design: they repair the resource
+                self.poisoned.discard(h.res)
+                cont = self.model_at(h)
+                ops.model_apply(cont, h.kind, m, a, kw, self._resolve_model)
+            return True
         if not ops.arity_ok(h.kind, m, a):
             return False
         cont = self.model_at(h)
@@ -348,6 +375,8 @@ class World:
 
     # ------------------------------------------------------------------ oracles
     def check_res(self, r, step=None):
+        if r in self.poisoned:
+            return
         try:
             got = self.res[r].read()
         except ValueError as e:
@@ -367,7 +396,7 @@ class World:
         for r in range(len(self.res)):
             self.check_res(r, step="final")
         for i, h in enumerate(self.handles):
-            if not h.attached:
+            if not h.attached or h.res in self.poisoned:
                 continue
             try:
                 got = plain(h.real())
